@@ -64,9 +64,13 @@ disjointness does not hold (last writer wins in the real engine) — memories ar
   the documented process form over the signals `e` reads: the two simulations agree on `curr`, `next`,
   `now` and every observation after every `advance()`, `run()`, `run_until()`, for every schedule.
 
+* `reindex_sameobs` — re-indexing the owners (moving a process, dropping an inert one) with the schedules
+  re-indexed accordingly gives the same runs; `process_equiv_comb_appended`, `process_equiv_sync` — the
+  compiled process(es) removed and the user process appended, under any two corresponding schedules, for
+  combinational assignments and for registers of every kind of domain (asynchronous reset included).
+
 Not proved: that the model's trace equals the Spec's trace (`Spec/Engine.lean`) for all scripts; the
-two are compared on every run of the check. The register replacement for domains with an asynchronous
-reset (two compiled owners against one process) is stated in a comment next to `process_equiv_sync_partial`.
+two are compared on every run of the check.
 -/
 
 namespace Amaranth.C08
@@ -744,21 +748,19 @@ example :
   decide +kernel
 
 /-
-Full statement for registers (not proved in this generality):
+Full statement for registers (proved further down as `process_equiv_sync`, in the form in which the compiled
+processes are removed and the user process appended; what follows is the same-position special case):
 
   process_equiv_sync: for every domain `d` — with or without reset, synchronous or asynchronous —
   `sync d (out := e)` (together with its reset-only companion `arst d (out := e)` when the domain has an
   asynchronous reset) replaced by `userSync d (exprSigs e) out e` yields `SameObs` after every `advance()`,
   `run()`, `run_until()`, from the initial states, for every schedule.
 
-Proved below (`process_equiv_sync_partial`): the domains for which the compiler creates no reset-only
-companion, i.e. `¬ (async ∧ rst.isSome)` — no reset, or a synchronous reset. Missing for an asynchronous
-reset: there the compiled side has two owners (`arst`, `sync`) for the one user process, so the two owner
-lists no longer have the same length and `Mid` / `SameOff` (position-wise equality off one index) do not
-apply; the relation would have to shift the indices of all later owners and of the schedules. The per-delta
-case analysis is the same as below with one more cause of activation (rising reset: `arst` writes `init`,
-the user process sees `rst_edge` and writes `init`; coincident with a clock edge both compiled owners write
-`init` — `Compat` — and so does the user process).
+`process_equiv_sync_partial` below: the domains for which the compiler creates no reset-only companion, i.e.
+`¬ (async ∧ rst.isSome)`, with the process at the *same position* as the compiled one. For an asynchronous
+reset the compiled side has two owners (`arst`, `sync`) for the one user process; that case is proved against an
+inert placeholder at the reset-only process' position (`async_equiv_runs`), the placeholder is then dropped and
+the process moved to the end by `reindex_sameobs` (`process_equiv_sync`).
 -/
 
 /-- **`m.d.<domain> += out.eq(e)` replaced by the documented process form**
@@ -830,5 +832,146 @@ example :
         (initState Ex.replSyncD (syncKindsB [] Ex.replSyncPost 0 2 Ex.replSyncE) Ex.replSyncScripts)).obs.reverse
       = [(0, 2, [1, 0, 5, 6]), (0, 2, [6]), (0, 6, [1, 1, 6]), (0, 6, [5]), (0, 10, [1, 0]), (0, 10, [5])] := by
   decide +kernel
+
+/-! ## Re-indexing the owners; the compiled process removed and the user process appended -/
+
+/-- **Re-indexing the owners gives the same runs.** `σ` injects the owner indices of `B` into those of `A`
+(`τ` its partial inverse), process `σ q` of `A` is process `q` of `B`, testbench `t` is testbench `t`, and
+the processes of `A` outside the image are inert (`KindsEmbed`; instances: `move_kinds` — one process moved
+to the end of the list, a bijection — and `drop_kinds` — one inert process removed). Then `A` under any
+schedule and `B` under the schedule that lists the corresponding owners in the same order (`mapSched τ`)
+agree on `curr`, `next`, `now` and all observations after every `advance()`, `run()`, `run_until()`. -/
+theorem reindex_sameobs (D : Design) (σ : Nat → Nat) (τ : Nat → Option Nat) (kindsA kindsB : List ProcKind)
+    (K : KindsEmbed D σ τ kindsA kindsB) (scripts : List (List TbOp)) (sched : Sched) (fuel n : Nat) :
+    SameObs (advanceN (mkSim D kindsA scripts sched fuel) n (initState D kindsA scripts))
+      (advanceN (mkSim D kindsB scripts (mapSched τ sched) fuel) n (initState D kindsB scripts)) ∧
+    SameObs (run (mkSim D kindsA scripts sched fuel) n (initState D kindsA scripts))
+      (run (mkSim D kindsB scripts (mapSched τ sched) fuel) n (initState D kindsB scripts)) ∧
+    ∀ deadline, SameObs (runUntil (mkSim D kindsA scripts sched fuel) deadline n (initState D kindsA scripts))
+      (runUntil (mkSim D kindsB scripts (mapSched τ sched) fuel) deadline n (initState D kindsB scripts)) :=
+  Engine.reindex_sameobs D σ τ kindsA kindsB K scripts sched fuel n
+
+/-- `process_equiv_comb` as `add_process` really does it: the compiled assignment is *removed* and the process
+*appended* at the end of the process list. `a` is any schedule of the original simulation (no duplicates, lists
+every process), `b'` any schedule of the new one that iterates, at every delta, a permutation of the
+corresponding owners (`moveSched`) and of the same slots. Uses the same-position equivalence, `reindex_sameobs`
+and schedule independence of the new simulation (`hpair`, `harst`: its static one-driver-per-bit condition). -/
+theorem process_equiv_comb_appended (D : Design) (pre post : List ProcKind) (scripts : List (List TbOp)) (out : Nat)
+    (e : Expr) (a b' : Sched) (fuel : Nat)
+    (H : ReplHyp D pre post out) (hwf : e.wf D.ctx = true) (hinit : EnvN D.ctx D.inits)
+    (hsc : ∀ sc ∈ scripts, ScriptWrites (writeOk D.ctx out) sc)
+    (hnd : SchedNodup a) (hl : SchedLists a (pre.length + 1 + post.length))
+    (hpair : (pre ++ post ++ [ProcKind.userComb (exprSigs e) out e]).Pairwise (PairOK D))
+    (harst : arstWf D (pre ++ post ++ [ProcKind.userComb (exprSigs e) out e]) = true)
+    (he : SchedEquiv (moveSched pre.length (pre.length + 1 + post.length) a) b') (n : Nat) :
+    SameObs (advanceN (mkSim D (combKindsA pre post out e) scripts a fuel) n (initState D (combKindsA pre post out e) scripts))
+      (advanceN (mkSim D (pre ++ post ++ [ProcKind.userComb (exprSigs e) out e]) scripts b' fuel) n
+        (initState D (pre ++ post ++ [ProcKind.userComb (exprSigs e) out e]) scripts)) ∧
+    SameObs (run (mkSim D (combKindsA pre post out e) scripts a fuel) n (initState D (combKindsA pre post out e) scripts))
+      (run (mkSim D (pre ++ post ++ [ProcKind.userComb (exprSigs e) out e]) scripts b' fuel) n
+        (initState D (pre ++ post ++ [ProcKind.userComb (exprSigs e) out e]) scripts)) ∧
+    ∀ dl, SameObs (runUntil (mkSim D (combKindsA pre post out e) scripts a fuel) dl n (initState D (combKindsA pre post out e) scripts))
+      (runUntil (mkSim D (pre ++ post ++ [ProcKind.userComb (exprSigs e) out e]) scripts b' fuel) dl n
+        (initState D (pre ++ post ++ [ProcKind.userComb (exprSigs e) out e]) scripts)) :=
+  comb_equiv_appended D pre post scripts out e a b' fuel H hwf hinit hsc hnd hl hpair harst he n
+
+/-- the same for a register of a domain without asynchronous reset -/
+theorem process_equiv_sync_appended_partial (D : Design) (pre post : List ProcKind) (scripts : List (List TbOp)) (d out : Nat)
+    (e : Expr) (a b' : Sched) (fuel : Nat)
+    (H : ReplHyp D pre post out) (HS : SyncHyp D d out) (hwf : e.wf D.ctx = true)
+    (hsc : ∀ sc ∈ scripts, ScriptWrites (fun tgt => tgt.twf D.ctx = true) sc)
+    (hnd : SchedNodup a) (hl : SchedLists a (pre.length + 1 + post.length))
+    (hpair : (pre ++ post ++ [ProcKind.userSync d (exprSigs e) out e]).Pairwise (PairOK D))
+    (harst : arstWf D (pre ++ post ++ [ProcKind.userSync d (exprSigs e) out e]) = true)
+    (he : SchedEquiv (moveSched pre.length (pre.length + 1 + post.length) a) b') (n : Nat) :
+    SameObs (run (mkSim D (syncKindsA pre post d out e) scripts a fuel) n (initState D (syncKindsA pre post d out e) scripts))
+      (run (mkSim D (pre ++ post ++ [ProcKind.userSync d (exprSigs e) out e]) scripts b' fuel) n
+        (initState D (pre ++ post ++ [ProcKind.userSync d (exprSigs e) out e]) scripts)) :=
+  (sync_equiv_appended D pre post scripts out e d a b' fuel H HS hwf hsc hnd hl hpair harst he n).2.1
+
+/-- **`process_equiv_sync`, in full.** `m.d.<domain> += out.eq(e)` replaced by the documented process form
+`async for clk_edge, rst, *values in ctx.tick(d).sample(*ins): …`, for every kind of domain: no reset, a
+synchronous reset (`SyncHyp`), or an asynchronous reset (`AsyncHyp`). `regKinds D d out e` is what the compiler
+creates for the register — `[sync]`, or `[arst, sync]` for an `async_reset` domain — and all of it is removed;
+the process is appended at the end of the list. `a`: any duplicate-free schedule of the original simulation
+listing every process; `b'`: any schedule of the new one iterating, at every delta, a permutation of the
+corresponding owners (`regSched`: the reset-only process' index dropped, the others renumbered) and of the
+same slots.
+
+For the asynchronous reset the relation (`AsyncRel`) keeps: the user process' trigger is activated exactly when
+one of the two compiled processes is runnable, the recorded edges tell which, and the reset-only process is
+runnable only while the reset is 1 — then the synchronous process, if it runs in the same delta, computes the
+initial value too, and the user process sees `rst` and writes the initial value. -/
+theorem process_equiv_sync (D : Design) (pre post : List ProcKind) (scripts : List (List TbOp)) (d out : Nat) (e : Expr)
+    (a b' : Sched) (fuel : Nat) (H : ReplHyp D pre post out)
+    (HD : SyncHyp D d out ∨ ∃ r, AsyncHyp D d out r) (hwf : e.wf D.ctx = true)
+    (hsc : ∀ sc ∈ scripts, ScriptWrites (fun tgt => tgt.twf D.ctx = true) sc)
+    (hnd : SchedNodup a) (hl : SchedLists a (pre ++ regKinds D d out e ++ post).length)
+    (hpair : (pre ++ post ++ [ProcKind.userSync d (exprSigs e) out e]).Pairwise (PairOK D))
+    (harst : arstWf D (pre ++ post ++ [ProcKind.userSync d (exprSigs e) out e]) = true)
+    (he : SchedEquiv (regSched D d pre.length (pre.length + 1 + post.length) a) b') (n : Nat) :
+    SameObs (advanceN (mkSim D (pre ++ regKinds D d out e ++ post) scripts a fuel) n
+        (initState D (pre ++ regKinds D d out e ++ post) scripts))
+      (advanceN (mkSim D (pre ++ post ++ [ProcKind.userSync d (exprSigs e) out e]) scripts b' fuel) n
+        (initState D (pre ++ post ++ [ProcKind.userSync d (exprSigs e) out e]) scripts)) ∧
+    SameObs (run (mkSim D (pre ++ regKinds D d out e ++ post) scripts a fuel) n
+        (initState D (pre ++ regKinds D d out e ++ post) scripts))
+      (run (mkSim D (pre ++ post ++ [ProcKind.userSync d (exprSigs e) out e]) scripts b' fuel) n
+        (initState D (pre ++ post ++ [ProcKind.userSync d (exprSigs e) out e]) scripts)) ∧
+    ∀ dl, SameObs (runUntil (mkSim D (pre ++ regKinds D d out e ++ post) scripts a fuel) dl n
+        (initState D (pre ++ regKinds D d out e ++ post) scripts))
+      (runUntil (mkSim D (pre ++ post ++ [ProcKind.userSync d (exprSigs e) out e]) scripts b' fuel) dl n
+        (initState D (pre ++ post ++ [ProcKind.userSync d (exprSigs e) out e]) scripts)) :=
+  reg_equiv_appended D pre post scripts d out e a b' fuel H HD hwf hsc hnd hl hpair harst he n
+
+/-- non-vacuity for `process_equiv_comb_appended`: `[comb (out := in ^ 3), clock]` against `[clock, userComb]`,
+the first under the identity schedule, the second under its own identity schedule (the corresponding owners
+in the other order); hypotheses decided, theorem applied, both runs evaluated -/
+example :
+    SameObs (run (mkSim Ex.replCombD (combKindsA [] Ex.replCombPost 1 Ex.replCombE) Ex.replCombScripts (identitySched 2 3) 20) 20
+        (initState Ex.replCombD (combKindsA [] Ex.replCombPost 1 Ex.replCombE) Ex.replCombScripts))
+      (run (mkSim Ex.replCombD ([] ++ Ex.replCombPost ++ [ProcKind.userComb (exprSigs Ex.replCombE) 1 Ex.replCombE])
+          Ex.replCombScripts (identitySched 2 3) 20) 20
+        (initState Ex.replCombD ([] ++ Ex.replCombPost ++ [ProcKind.userComb (exprSigs Ex.replCombE) 1 Ex.replCombE])
+          Ex.replCombScripts)) :=
+  (process_equiv_comb_appended Ex.replCombD [] Ex.replCombPost Ex.replCombScripts 1 Ex.replCombE
+    (identitySched 2 3) (identitySched 2 3) 20
+    (replOk_sound (envNb_sound (by decide)) (by decide)) (by decide) (envNb_sound (by decide))
+    (scriptsWriteOk_sound (by decide)) (identitySched_nodup 2 3) (identitySched_lists 2 3)
+    (pairOK_of_staticDisjoint (by decide)) (by decide)
+    (fun _ => ⟨(by decide : [1, 0].Perm [0, 1]), List.Perm.refl _⟩) 20).2.1
+
+example :
+    (run (mkSim Ex.replCombD ([] ++ Ex.replCombPost ++ [ProcKind.userComb (exprSigs Ex.replCombE) 1 Ex.replCombE])
+          Ex.replCombScripts (identitySched 2 3) 20) 20
+        (initState Ex.replCombD ([] ++ Ex.replCombPost ++ [ProcKind.userComb (exprSigs Ex.replCombE) 1 Ex.replCombE])
+          Ex.replCombScripts)).obs.reverse
+      = [(0, 0, [3]), (0, 0, [4]), (0, 3, [1, 1]), (0, 3, [7])] := by decide +kernel
+
+/-- non-vacuity for `process_equiv_sync` with an asynchronous reset: the design `Ex.arstD` — the compiler's
+`[arst, sync]` pair for `count := count + 1` and a compiled `out := count ^ 3` — against `[comb, userSync]`.
+The testbench drives the clock by hand; `set(Cat(clk, rst), 3)` makes the clock edge and the rising reset
+coincide. All hypotheses are decided; the theorem applies; the new simulation evaluates to the observations of
+the original one (see the example after `advance_perm_design`). -/
+example :
+    SameObs (run (mkSim Ex.arstD ([] ++ regKinds Ex.arstD 0 2 Ex.replAsyncE ++ Ex.replAsyncPost) Ex.arstScripts (identitySched 3 4) 50) 20
+        (initState Ex.arstD ([] ++ regKinds Ex.arstD 0 2 Ex.replAsyncE ++ Ex.replAsyncPost) Ex.arstScripts))
+      (run (mkSim Ex.arstD Ex.replAsyncB Ex.arstScripts (identitySched 2 4) 50) 20
+        (initState Ex.arstD Ex.replAsyncB Ex.arstScripts)) :=
+  (process_equiv_sync Ex.arstD [] Ex.replAsyncPost Ex.arstScripts 0 2 Ex.replAsyncE (identitySched 3 4) (identitySched 2 4) 50
+    (replOk_sound (envNb_sound (by decide)) (by decide))
+    (Or.inr ⟨1, asyncOk_sound (envNb_sound (by decide)) (by decide)⟩) (by decide)
+    (scriptsTwf_sound (by decide)) (identitySched_nodup 3 4) (identitySched_lists 3 4)
+    (pairOK_of_staticDisjoint (by decide)) (by decide)
+    (fun _ => ⟨(by decide : [1, 0].Perm [0, 1]), List.Perm.refl _⟩) 20).2.1
+
+example :
+    [] ++ regKinds Ex.arstD 0 2 Ex.replAsyncE ++ Ex.replAsyncPost = Ex.arstKinds ∧
+    (run (mkSim Ex.arstD Ex.replAsyncB Ex.arstScripts (identitySched 2 4) 50) 20
+        (initState Ex.arstD Ex.replAsyncB Ex.arstScripts)).obs.reverse
+      = [(0, 0, [6]), (0, 0, [5]), (0, 0, [6]), (0, 0, [6]), (0, 0, [5])] ∧
+    (run (mkSim Ex.arstD Ex.replAsyncB Ex.arstScripts (reverseSched 2 4) 50) 20
+        (initState Ex.arstD Ex.replAsyncB Ex.arstScripts)).obs.reverse
+      = [(0, 0, [6]), (0, 0, [5]), (0, 0, [6]), (0, 0, [6]), (0, 0, [5])] := ⟨rfl, by decide +kernel, by decide +kernel⟩
 
 end Amaranth.C08
